@@ -216,6 +216,29 @@ def invalid_cases(rng, ng, table_names):
             parts[tgt + 1] = (bogus or '""') + parts[tgt + 1][parts[tgt + 1].index("\n"):]
             text = "  - action: ".join(parts)
         out.append(with_text("unknown action %r as %s action" % (bogus, where), text))
+    # names written in the syntax of a template / variable expansion: they are unknown names, whatever they would expand to
+    for bogus, where in [(b, w) for b in ['"${UNSET:allow}"', '"${seccomp.default_action}"', '"${HOME}"', '"$allow"', '"%{allow}"', '"{{allow}}"', '"${UNSET:-allow}"']
+                         for w in ("default", "group")]:
+        pol = good()
+        tgt = "default" if where == "default" else rng.randrange(len(pol["groups"]))
+        text = render_yaml(pol)
+        if tgt == "default":
+            text = text.replace("default_action: %s" % ACTION_NAMES[pol["default"]], "default_action: %s" % bogus, 1)
+        else:
+            parts = text.split("  - action: ")
+            parts[tgt + 1] = bogus + parts[tgt + 1][parts[tgt + 1].index("\n"):]
+            text = "  - action: ".join(parts)
+        out.append(with_text("action written as a variable reference %s (%s action)" % (bogus, where), text))
+    for bogus in ['"${UNSET:getpid}"', '"${seccomp.syscalls.0.names.0}"', '"$getpid"']:
+        pol = good()
+        g = rng.choice(pol["groups"])
+        g["names"].insert(rng.randint(0, len(g["names"])), "@BOGUS@")
+        out.append(with_text("syscall name written as a variable reference %s" % bogus, render_yaml(pol).replace("@BOGUS@", bogus)))
+    pol = good()
+    g = rng.choice(pol["groups"])
+    free = [n for n in ng.pool(g["action"]) if n not in g["names"]]
+    g["nwc"].append(dict(name=rng.choice(free), conds=[(1, "BAD", 5)]))
+    out.append(with_text("operation written as a variable reference", render_yaml(pol, op_text=lambda o: '"${UNSET:Equal}"' if o == "BAD" else OP_NAMES[o])))
     for bogus in ["nosuchcall", "GETPID", "getpid2", "x32_read", "open at"]:
         pol = good()
         g = rng.choice(pol["groups"])
@@ -247,7 +270,18 @@ def invalid_cases(rng, ng, table_names):
         g["names"].append(rng.choice([n for n in ng.pool(g["action"]) if all(w["name"] != n for w in g["nwc"])] or ["getpgrp"]))
     g["nwc"].append(dict(name=g["names"][0], conds=[ng.pg.cond()]))
     out.append(with_text("syscall with and without conditions in one group", render_yaml(pol)))
-    for idx in [6, 7, 100]:
+    # an unknown name directly behind a conditional entry for the syscall numbered 0 (what a failed lookup yields)
+    zero = min(ng.table)[1]
+    for bogus in ["nosuchcall", "getpid2"]:
+        pol = good()
+        g = rng.choice(pol["groups"])
+        g["names"] = [n for n in g["names"] if n != zero]
+        g["nwc"] = [w for w in g["nwc"] if w["name"] != zero]
+        at = rng.randint(0, len(g["nwc"]))
+        g["nwc"].insert(at, dict(name=zero, conds=[ng.pg.cond()]))
+        g["nwc"].insert(rng.randint(at + 1, len(g["nwc"])), dict(name=bogus, conds=[ng.pg.cond()]))
+        out.append(with_text("unknown syscall name %r with conditions, behind a conditional entry for %s (number %d)" % (bogus, zero, min(ng.table)[0]), render_yaml(pol)))
+    for idx in [6, 7, 100, 1 << 29, (1 << 29) + 2, (1 << 30) + 5, (1 << 31) + 1, (7 << 29) + 3, 4294967295]:
         pol = good()
         g = rng.choice(pol["groups"])
         free = [n for n in ng.pool(g["action"]) if n not in g["names"]]
@@ -462,6 +496,12 @@ def check_C15(ctx, replay=None):
             uid = NOBODY if (nnp is not False and rng.random() < 0.2) else 0
             it = dict(cid="s%d" % i, pol=pol, tokens=PolicyGen.tokens(pol), yaml=render_yaml(pol, action_text=case_variant(rng, ACTION_NAMES), op_text=case_variant(rng, OP_NAMES)), nnp=nnp, uid=uid, kind=kind,
                       events=ng.events(pol, 40 if q else 60), default_word=pol["default"])
+            if rng.random() < 0.2:
+                # a large file: comment lines in front of / behind the policy (sizes around 4 KiB, 64 KiB and beyond)
+                n = rng.choice([4000, 65000, 65536 - len(it["yaml"]) // 2, 65536, 66000, 200000, 1100000])
+                pad = ("# " + "x" * 77 + "\n") * (max(n, 80) // 80)
+                it["yaml"] = (pad + it["yaml"]) if rng.random() < 0.6 else (it["yaml"] + pad)
+                it["kind"] = kind + "/padded"
             if rng.random() < 0.3:
                 it["extra_args"] = rng.sample(["-x", "--policy=zzz", "a b", "-no-new-privs=false", "7"], 2)
             items.append(it)
@@ -478,7 +518,7 @@ def check_C15(ctx, replay=None):
         evaluations=stats["runs"] + stats["probes"], sandbox_runs=stats["runs"], invalid_runs=stats["invalid"], valid_runs=stats["valid"],
         probes_judged=stats["probes"], traces_validated_against_impl=stats["runs"],
         distinct_nontrivial=stats["invalid"] + len(stats["nontrivial"]),
-        rule="the sandbox binary built from the working tree, run (a) on policy files invalid in one way each (missing, directory, empty, no seccomp section, no groups, three kinds of malformed YAML, four wrong types, unknown action / syscall name / operation in several spellings and positions, duplicate name, conditional+unconditional, argument index 6/7/100, entry without conditions, program over 4096 instructions), without target argument, with -no-new-privs=false as uid nobody: judged exit status != 0 and marker file absent; (b) on seeded valid policy files (names, conditions on all six arguments, several groups, over 255 and over 1000 instructions; default allow/log; errno, allow, log, trace, trap, kill_process) with and without -no-new-privs, as root and nobody, with extra target arguments: judged marker written once, every raw probe of the separate target equal to the extracted decide, exit status. non-trivial = invalid runs + distinct (policy, probe) pairs whose specified decision differs from the default action's",
+        rule="the sandbox binary built from the working tree, run (a) on policy files invalid in one way each (missing, directory, empty, no seccomp section, no groups, three kinds of malformed YAML, four wrong types, unknown action / syscall name / operation in several spellings and positions incl. names written as variable references (${X:allow}, $allow, %{allow}), duplicate name, conditional+unconditional, argument index 6/7/100 and indices equal to a valid one modulo 2^29..2^31, an unknown name behind a conditional entry for syscall number 0, entry without conditions, program over 4096 instructions), without target argument, with -no-new-privs=false as uid nobody: judged exit status != 0 and marker file absent; (b) on seeded valid policy files (names, conditions on all six arguments, several groups, over 255 and over 1000 instructions; default allow/log; errno, allow, log, trace, trap, kill_process) with and without -no-new-privs, as root and nobody, one in five padded with comment lines to 4 KiB .. 1.1 MB, with extra target arguments: judged marker written once, every raw probe of the separate target equal to the extracted decide, exit status. non-trivial = invalid runs + distinct (policy, probe) pairs whose specified decision differs from the default action's",
         counterexamples=nbad, correspondence_differences=ndiff,
         input_distribution=dict(cases=stats["kinds"], outcomes=stats["outcomes"], recorded=stats["recorded"],
                                 program_length=dict(min=min(stats["lens"]) if stats["lens"] else 0, max=max(stats["lens"]) if stats["lens"] else 0,
